@@ -3029,22 +3029,16 @@ impl<'a, R: FileManager> FrontendCtx<'a, R> {
         })? {
             return Ok(Runtype::never());
         }
-        let (head, tail) = semtype_to_runtypes(
-            ctx,
-            &access_st,
-            // TODO: do we need this?
-            &RuntypeUUID {
-                ty: RuntypeName::Address(TypeAddress {
-                    file: anchor.f.clone(),
-                    name: "AnyName".into(),
-                }),
-                type_arguments: vec![],
-            },
-            &mut self.counter,
-        )
-        .map_err(|any| {
-            self.box_error(anchor, DiagnosticInfoMessage::AnyhowError(any.to_string()))
-        })?;
+        // the root needs a name of its own: a computed type that is recursive at the top refers back to it
+        self.counter += 1;
+        let root_name = RuntypeUUID {
+            ty: RuntypeName::SemtypeRecursiveGenerated(self.counter),
+            type_arguments: vec![],
+        };
+        let (head, tail) = semtype_to_runtypes(ctx, &access_st, &root_name, &mut self.counter)
+            .map_err(|any| {
+                self.box_error(anchor, DiagnosticInfoMessage::AnyhowError(any.to_string()))
+            })?;
         for t in tail {
             self.insert_definition(t.name.clone(), t.schema)?;
         }
